@@ -216,7 +216,7 @@ def run_bin(name, args=(), stdin_path=None, stdin_data=None, timeout=3600, env=N
 
 def json_lines(b):
     out = []
-    for line in b.decode("utf-8", "replace").splitlines():
+    for line in b.decode("utf-8", "replace").split("\n"):      # not splitlines(): U+2028 etc. occur inside JSON strings
         line = line.strip()
         if line.startswith("{"):
             out.append(json.loads(line))
